@@ -18,6 +18,7 @@ import (
 	"bufio"
 	"io"
 	"os"
+	"strings"
 
 	"github.com/alibaba/sentinel-golang/core/base"
 	"github.com/alibaba/sentinel-golang/logging"
@@ -174,19 +175,14 @@ func (r *defaultMetricLogReader) readMetricsInOneFileByEndTime(filename string, 
 	}
 }
 
+// readLine returns the next line without its line break. A last line that is not terminated by a
+// line break is a partially written (torn) line: it is dropped and io.EOF is returned.
 func readLine(bufReader *bufio.Reader) (string, error) {
-	buf := make([]byte, 0, 64)
-	for {
-		line, ne, err := bufReader.ReadLine()
-		if err != nil {
-			return "", err
-		}
-		buf = append(buf, line...)
-		if !ne {
-			return string(buf), err
-		}
-		// buffer size < line size, so we need to read until the `ne` flag is false.
+	line, err := bufReader.ReadString('\n')
+	if err != nil {
+		return "", err
 	}
+	return strings.TrimSuffix(strings.TrimSuffix(line, "\n"), "\r"), nil
 }
 
 func getLatestSecond(items []*base.MetricItem) uint64 {
